@@ -59,7 +59,39 @@ type verifScanState struct {
 	verifProduced int // ring slots ever filled
 	verifMaxN     int // deepest pushback observed at a read through curr()
 	verifStale    int // reads of a slot that was never filled or already overwritten
+	verifLogOn    bool
+	verifBefore   int          // runes consumed when the current fresh scan started
+	verifLog      []VerifToken // every token freshly scanned for the parser, in order
 }
+
+// VerifToken is one token as the parser's scanner stack obtained it: what was
+// reported, and the extent [Before, After) in runes consumed net of pushback.
+type VerifToken struct {
+	Tok           Token
+	Pos           Pos
+	Lit           string
+	Before, After int
+}
+
+// verifBeforeScan / verifAfterScan bracket the scan of a fresh token in scanFunc.
+func (s *bufScanner) verifBeforeScan() {
+	if s.verifLogOn {
+		s.verifBefore = s.s.r.verifConsumed()
+	}
+}
+
+func (s *bufScanner) verifAfterScan() {
+	if s.verifLogOn {
+		b := &s.buf[s.i]
+		s.verifLog = append(s.verifLog, VerifToken{Tok: b.tok, Pos: b.pos, Lit: b.lit, Before: s.verifBefore, After: s.s.r.verifConsumed()})
+	}
+}
+
+// VerifLogTokens switches the token log on.
+func (p *Parser) VerifLogTokens() { p.s.verifLogOn = true }
+
+// VerifTokens returns the tokens scanned for the parser so far.
+func (p *Parser) VerifTokens() []VerifToken { return p.s.verifLog }
 
 // VerifBudgetExceeded is the panic value raised when the scan budget set with
 // VerifSetBudget is exhausted.
